@@ -368,7 +368,8 @@ theorem dumpFrame_effect (h : Heap) (cfg : Nat × Option Nat) (conf : Nat) (h2 :
     attributes of that copy only and writes only `exe_dir/conf.<ext>` and `exe_dir/genvel.<ext>`:
     every pre-existing `System` object (in particular the shooting point, every frame of the
     path), every referenced array/list, and every file other than those two is unchanged.
-    The copy keeps `pos/vel/box/temperature/vel_rev/vpot` and gets new `config`, `ekin`, `order`. -/
+    The copy keeps `temperature/vel_rev/vpot`, gets the new `config` and `ekin`, and its
+    `order`, `pos`, `vel` (and `box`) are rebound to *fresh* objects (addresses beyond the old heap). -/
 theorem source_frame_untouched (vk vr : Variant) (s : Setup) (h : Heap) (a conf genvel : Nat)
     (zm : Option Bool) (sig : List Rat) (z : List (List Rat)) (newOrder : List Rat) (sh : Shoot)
     (hok : prepareShootingPoint vk vr s h a conf genvel zm sig z newOrder = .ok sh) :
@@ -377,8 +378,9 @@ theorem source_frame_untouched (vk vr : Variant) (s : Setup) (h : Heap) (a conf 
     ∧ (∀ f, f ≠ conf → f ≠ genvel → sh.heap.readFile f = h.readFile f)
     ∧ sh.copy = h.systems.length
     ∧ ∃ sp sp', h.systems[a]? = some sp ∧ sh.heap.systems[sh.copy]? = some sp'
-        ∧ sp'.pos = sp.pos ∧ sp'.vel = sp.vel ∧ sp'.box = sp.box ∧ sp'.temperature = sp.temperature
-        ∧ sp'.velRev = sp.velRev ∧ sp'.vpot = sp.vpot ∧ sp'.config = (genvel, some 0) := by
+        ∧ sp'.temperature = sp.temperature ∧ sp'.velRev = sp.velRev ∧ sp'.vpot = sp.vpot
+        ∧ sp'.config = (genvel, some 0)
+        ∧ h.objs.length ≤ sp'.order ∧ h.objs.length ≤ sp'.pos ∧ h.objs.length ≤ sp'.vel := by
   unfold prepareShootingPoint at hok
   split at hok
   · cases hok
@@ -389,7 +391,7 @@ theorem source_frame_untouched (vk vr : Variant) (s : Setup) (h : Heap) (a conf 
     · rename_i h2 fr hd
       have ⟨hs2, ho2, hf2⟩ := dumpFrame_effect _ _ _ _ _ hd
       cases hok
-      refine ⟨?_, ?_, ?_, rfl, sp, _, hsp, List.getElem?_concat_length, rfl, rfl, rfl, rfl, rfl, rfl, rfl⟩
+      refine ⟨?_, ?_, ?_, rfl, sp, _, hsp, List.getElem?_concat_length, rfl, rfl, rfl, rfl, ?_, ?_, ?_⟩
       · intro i hi
         simp [List.getElem?_append_left hi]
       · intro i hi
@@ -399,6 +401,9 @@ theorem source_frame_untouched (vk vr : Variant) (s : Setup) (h : Heap) (a conf 
         change (h2.writeFile genvel _).readFile f = h.readFile f
         rw [readFile_writeFile_ne _ f genvel _ hfg, hf2 f hfc]
         rfl
+      all_goals
+        simp only [Heap.writeFile, ho2]
+        omega
 
 example : ∃ sh, prepareShootingPoint .asIs .asIs aseWitnessSetup
     { systems := [⟨(7, some 0), 0, 1, 1, 1, 1, false, none, none⟩], objs := [[5], []],
